@@ -158,6 +158,38 @@ def _bindings(enter: Node) -> dict[str, ast.AST]:
     return out
 
 
+def call_returns(g: Graph, call: ast.AST) -> list[tuple[Node, ast.AST | None]] | None:
+    """If ``call`` was inlined into ``g``: the Return nodes of that activation
+    with their value expressions (None for a bare return / fall-through).
+    Returns None when the call was not inlined."""
+    enter = next((x for x in g.nodes if x.kind == "call_enter" and x.ast is call), None)
+    if enter is None:
+        return None
+    stack = enter.stack + (enter.id,)
+    out = []
+    for x in g.nodes:
+        if x.stack == stack and x.kind == "stmt" and isinstance(x.ast, ast.Return):
+            out.append((x, x.ast.value))
+    return out
+
+
+def _tuple_returns(g: Graph, call: ast.AST, index: int):
+    """For `a, b = helper(...)` with an inlined helper that returns literal
+    tuples: the index-th element of each return, with its Return node."""
+    while isinstance(call, ast.Await):
+        call = call.value
+    rets = call_returns(g, call)
+    if not rets:
+        return None
+    out = []
+    for rn, rv in rets:
+        if isinstance(rv, ast.Tuple) and len(rv.elts) > index:
+            out.append((rn, rv.elts[index]))
+        else:
+            return None
+    return out
+
+
 def origins(defs: Defs, n: Node, expr: ast.AST, _seen=None, depth: int = 0) -> list[tuple[Node, ast.AST]]:
     """Expand an expression through local definitions down to leaf
     expressions: returns (node where evaluated, leaf expr).  Names that are
@@ -166,6 +198,23 @@ def origins(defs: Defs, n: Node, expr: ast.AST, _seen=None, depth: int = 0) -> l
     if _seen is None:
         _seen = set()
     if depth > 12:
+        return [(n, expr)]
+    if isinstance(expr, ast.Await):
+        return origins(defs, n, expr.value, _seen, depth)
+    if isinstance(expr, ast.Call):
+        rets = call_returns(defs.g, expr)
+        if rets:
+            tag = ("call", id(expr))
+            if tag in _seen:
+                return []
+            _seen.add(tag)
+            out = []
+            for rn, rv in rets:
+                if rv is None:
+                    out.append((rn, ast.Constant(value=None)))
+                else:
+                    out += origins(defs, rn, rv, _seen, depth + 1)
+            return out
         return [(n, expr)]
     if isinstance(expr, ast.Name):
         ds = defs.at(n, expr.id)
@@ -180,6 +229,9 @@ def origins(defs: Defs, n: Node, expr: ast.AST, _seen=None, depth: int = 0) -> l
             if sel == "param" and val is not None and dn.stack:
                 enter = defs.g.nodes[dn.stack[-1]]
                 out += origins(defs, enter, val, _seen, depth + 1)
+            elif isinstance(sel, tuple) and sel[0] == "unpack" and isinstance(val, (ast.Call, ast.Await)) and _tuple_returns(defs.g, val, sel[1]) is not None:
+                for rn, elt in _tuple_returns(defs.g, val, sel[1]):
+                    out += origins(defs, rn, elt, _seen, depth + 1)
             elif val is None or sel not in (None,):
                 out.append((dn, _Sel(expr.id, val, sel)))
             else:
